@@ -36,7 +36,12 @@ type FormatCase struct {
 	Tasks      []FTask `json:"tasks,omitempty"`
 	Concurrent bool    `json:"concurrent,omitempty"`
 	Frames     []int   `json:"frames_us,omitempty"`
+	SlowUs     int     `json:"slow_sink_us,omitempty"` // every write to the terminal takes this long (a slow terminal or pipe)
 }
+
+type slowWriter struct{ d time.Duration }
+
+func (w slowWriter) Write(p []byte) (int, error) { time.Sleep(w.d); return len(p), nil }
 
 func mkTask(i int, ft FTask) *task.Task {
 	t := task.NewTask()
@@ -70,7 +75,11 @@ func childMain() {
 		for i, us := range c.Frames {
 			tk := task.NewTask()
 			tk.Name = fmt.Sprintf("frame%d", i)
-			o, err := output.NewTaskOutput(tk, os.Getenv("VERIF_CHILD_FORMAT"), io.Discard, io.Discard)
+			var sinkW io.Writer = io.Discard
+			if c.SlowUs > 0 {
+				sinkW = slowWriter{time.Duration(c.SlowUs) * time.Microsecond}
+			}
+			o, err := output.NewTaskOutput(tk, os.Getenv("VERIF_CHILD_FORMAT"), sinkW, sinkW)
 			if err != nil {
 				os.Exit(95)
 			}
@@ -170,7 +179,11 @@ func (e errInconclusive) Error() string { return e.msg }
 
 func runFormats(c FormatCase, dir string) error {
 	var base []string
-	for _, f := range []string{"raw", "prefixed", "cockpit"} {
+	formats := []string{"raw", "prefixed", "cockpit"}
+	if len(c.Frames) > 0 {
+		formats = []string{"cockpit"} // nothing to compare: the oracle is "the process ends normally"
+	}
+	for _, f := range formats {
 		cr := runChild(c, f, dir, 12*time.Second)
 		if cr.timedOut {
 			// calibration: is the machine able to run a trivial child promptly?
@@ -274,7 +287,10 @@ func TestCockpitFrames(t *testing.T) {
 	k := 0
 	rapid.Check(t, func(rt *rapid.T) {
 		n := rapid.IntRange(8, 14).Draw(rt, "tasks")
-		var c FormatCase
+		c := FormatCase{SlowUs: rapid.SampledFrom([]int{0, 100, 200, 400}).Draw(rt, "slow_sink_us")}
+		if c.SlowUs > 0 {
+			n += 10
+		}
 		for i := 0; i < n; i++ {
 			c.Frames = append(c.Frames, rapid.IntRange(1, 2).Draw(rt, "frames")*100000+rapid.IntRange(-400, 400).Draw(rt, "jitter_us"))
 		}
